@@ -33,7 +33,8 @@ type joinActivation struct {
 	edges map[*ssa.BasicBlock][]*edgeState // per block: one slot per incoming edge
 	in    map[*ssa.BasicBlock]*edgeState   // state the block was last processed with
 	count map[*ssa.BasicBlock]int          // number of times a block was processed
-	epoch map[*ssa.BasicBlock]int          // loop heads: work done outside the loop at last processing
+	iter  map[*ssa.BasicBlock]int          // loop heads: iterations since the loop was last entered
+	epoch map[*ssa.BasicBlock]int          // loop heads: executions of the dominators at last processing
 	dirty map[*ssa.BasicBlock]bool
 }
 
@@ -70,19 +71,20 @@ var traceJoin = os.Getenv("VOI_ERANGE_TRACE") == "2"
 func (a *Analyzer) runJoin(fr *frame, mem *Memory) []result {
 	fn := fr.fn
 	rpo := a.rpoIndex(fn)
+	depth := fr.info.depth
 	act := &joinActivation{edges: map[*ssa.BasicBlock][]*edgeState{}, in: map[*ssa.BasicBlock]*edgeState{},
-		count: map[*ssa.BasicBlock]int{}, epoch: map[*ssa.BasicBlock]int{}, dirty: map[*ssa.BasicBlock]bool{}}
+		count: map[*ssa.BasicBlock]int{}, iter: map[*ssa.BasicBlock]int{}, epoch: map[*ssa.BasicBlock]int{}, dirty: map[*ssa.BasicBlock]bool{}}
 	entry := fn.Blocks[0]
 	act.edges[entry] = []*edgeState{{over: map[ssa.Value]Value{}, mem: mem}}
 	act.dirty[entry] = true
 	var ret *result
-	total := 0
 
 	for len(act.dirty) > 0 && !a.aborted {
-		// next block in reverse post-order
+		// next block: innermost loops first (an inner loop is stabilised
+		// before its exits are followed), reverse post-order within a level
 		var b *ssa.BasicBlock
 		for d := range act.dirty {
-			if b == nil || rpo[d] < rpo[b] {
+			if b == nil || depth[d] > depth[b] || (depth[d] == depth[b] && rpo[d] < rpo[b]) {
 				b = d
 			}
 		}
@@ -94,21 +96,23 @@ func (a *Analyzer) runJoin(fr *frame, mem *Memory) []result {
 		}
 		isHead := fr.info.heads[b]
 		if old := act.in[b]; old != nil && isHead {
-			outside := total - act.bodyWork(fr.info.body[b])
-			if outside == act.epoch[b] && a.leqState(fr, st, old) {
+			if act.domWork(b) == act.epoch[b] && a.leqState(fr, st, old) {
 				continue // post-fixpoint of this loop reached
 			}
-			st = a.mergeState(fr, b, old, st, act.count[b] >= joinWidenAfter)
+			if traceLoops && act.iter[b] > 15 {
+				a.traceNotCovered(fr, b, act.count[b], st, old)
+			}
+			st = a.mergeState(fr, b, old, st, act.iter[b] >= joinWidenAfter)
 		}
-		if act.count[b] > a.UnrollLimit {
+		if act.count[b] > 40*a.UnrollLimit || act.iter[b] > a.UnrollLimit {
 			a.undecide(b.Instrs[0], "block processed more than %d times in join mode", a.UnrollLimit)
 			break
 		}
 		act.count[b]++
-		total++
+		act.iter[b]++
 		act.in[b] = st
 		if isHead {
-			act.epoch[b] = total - act.bodyWork(fr.info.body[b])
+			act.epoch[b] = act.domWork(b)
 		}
 		if traceJoin {
 			fmt.Fprintf(os.Stderr, "%*sjoin %s block %d (#%d)\n", fr.depth, "", load.FuncName(fn), b.Index, act.count[b])
@@ -212,11 +216,14 @@ func (a *Analyzer) runJoin(fr *frame, mem *Memory) []result {
 	return []result{*ret}
 }
 
-// bodyWork is the number of block executions inside a loop body.
-func (act *joinActivation) bodyWork(body map[*ssa.BasicBlock]bool) int {
+// domWork is the number of executions of the blocks that strictly dominate
+// b: the values a loop body can use from outside the loop are defined there,
+// so a loop head need not be processed again while this number and its entry
+// state are unchanged.
+func (act *joinActivation) domWork(b *ssa.BasicBlock) int {
 	n := 0
-	for b := range body {
-		n += act.count[b]
+	for d := b.Idom(); d != nil; d = d.Idom() {
+		n += act.count[d]
 	}
 	return n
 }
@@ -266,6 +273,18 @@ func (a *Analyzer) contribute(fr *frame, act *joinActivation, p *ssa.BasicBlock,
 	fr.over = saved
 	if act.edges[b] == nil {
 		act.edges[b] = make([]*edgeState, len(b.Preds))
+	}
+	if body := fr.info.body[b]; body != nil && !body[p] {
+		// the loop is entered anew from outside: iterate it from this entry
+		// state alone (recursive iteration strategy); what came around its
+		// back edges belongs to the previous entry
+		for i, q := range b.Preds {
+			if body[q] {
+				act.edges[b][i] = nil
+			}
+		}
+		delete(act.in, b)
+		act.iter[b] = 0
 	}
 	act.edges[b][slot] = &edgeState{over: cloneOver(over), mem: m, phis: phis}
 	act.dirty[b] = true
@@ -393,3 +412,28 @@ func (a *Analyzer) mergeState(fr *frame, b *ssa.BasicBlock, old, nw *edgeState, 
 }
 
 var _ = sort.Ints
+
+// traceNotCovered prints why a loop head state is not covered (debug aid).
+func (a *Analyzer) traceNotCovered(fr *frame, b *ssa.BasicBlock, n int, nw, old *edgeState) {
+	fmt.Fprintf(os.Stderr, "loop %s block %d visit %d not covered:", load.FuncName(fr.fn), b.Index, n)
+	for i := range nw.phis {
+		if i < len(old.phis) && !leqValue(nw.phis[i], old.phis[i]) {
+			fmt.Fprintf(os.Stderr, " phi%d %s !<= %s;", i, debugValue(nw.phis[i]), debugValue(old.phis[i]))
+		}
+	}
+	for v, y := range old.over {
+		x, ok := nw.over[v]
+		if !ok {
+			x = fr.env[v]
+		}
+		if x == nil || !leqValue(x, y) {
+			fmt.Fprintf(os.Stderr, " over %s %s !<= %s;", v.Name(), debugValue(x), debugValue(y))
+		}
+	}
+	for k, v := range nw.mem.cells {
+		if w, ok := old.mem.root(k); ok && !leqValue(v, w) {
+			fmt.Fprintf(os.Stderr, " obj%d (%v) %s !<= %s;", k, a.objType[k], debugValue(v), debugValue(w))
+		}
+	}
+	fmt.Fprintln(os.Stderr)
+}
